@@ -546,6 +546,8 @@ pub struct CheckOut {
     pub extra: BTreeMap<String, Value>,
     pub assumptions: Vec<String>,
     pub exhaustive: Option<bool>,
+    /// count distinct judged states (e.g. crash images) instead of distinct run logs
+    pub distinct_is_states: bool,
 }
 
 pub fn finish_check(out: CheckOut, tier: Tier, seed: u64, wall: Instant) -> i32 {
@@ -636,11 +638,13 @@ pub fn finish_check(out: CheckOut, tier: Tier, seed: u64, wall: Instant) -> i32 
     let mut coverage = serde_json::Map::new();
     coverage.insert("evaluations".into(), json!(total.evals));
     coverage.insert("runs".into(), json!(total.runs));
-    coverage.insert("distinct_nontrivial".into(), json!(total.nontrivial_distinct.len()));
+    let distinct = if out.distinct_is_states { total.states.len() } else { total.nontrivial_distinct.len() };
+    coverage.insert("distinct_nontrivial".into(), json!(distinct));
+    coverage.insert("distinct_nontrivial_runs".into(), json!(total.nontrivial_distinct.len()));
     coverage.insert(
         "rule".into(),
         json!(format!(
-            "{rule} A run counts as non-trivial when at least one fault kind actually fired or one rare-branch probe was hit; distinct = distinct hashes of the full event log among those runs."
+            "{rule} A run counts as non-trivial when at least one fault kind actually fired or one rare-branch probe was hit; distinct = distinct hashes of the full event log among those runs{}.", if out.distinct_is_states { " (here: distinct judged states, i.e. distinct reopened crash images by rolling hash of the write-log prefix)" } else { "" }
         )),
     );
     coverage.insert("samples".into(), Value::Array(samples));
